@@ -4,7 +4,7 @@ import re
 from collections import Counter
 
 from .core import VERIF
-from .lib import callers, status_const_of_ctor
+from .lib import PLUMBING, callee_allow, callers, operand_local, status_const_of_ctor
 from .lib_c13 import site_what
 from .lib_c18 import census_sites, holds_variant_at, site_cannot_fail
 from .lib_c16 import (PANIC_KINDS_TEXT, SELECT_OUT, SERVE, SPAWN, accept_arms, after_await, await_payloads, awaits, discr_switches, exits_only_on_close_signal,
@@ -46,6 +46,46 @@ def _stream_coroutine(ctx, R):
     return cs[0]
 
 
+_DUR_CONST = [r"time::Duration::from_(millis|secs|micros|nanos)$", r"time::Duration::new$"]
+
+
+def _is_const_duration(f, op):
+    sl = f.slice(op)
+    return not sl.params() and not callee_allow(sl, PLUMBING + _DUR_CONST) and not [a for a in sl.atoms if a[0] in ("binop", "unop")]
+
+
+def _bounded_duration(f, op, depth=0):
+    """The Duration operand is a constant, or every definition of it (loop-carried ones included, through whole-value moves) is a
+    constant or the result of `min(x, constant)` / `clamp(x, constant, constant)`."""
+    if _is_const_duration(f, op):
+        return True
+    l = operand_local(op)
+    if l is None or depth > 6 or (op.get("pl") or {}).get("p"):
+        return False
+    ds_ = [d for d in f.defs().get(l, []) if d[0] in f.reachable(0) and not f.blocks[d[0]]["cleanup"]]
+    if not ds_ or 1 <= l <= f.argc:
+        return False
+    for bb, kind, node in ds_:
+        if kind == "call":
+            c = node.get("callee") or ""
+            if re.search(r"cmp::Ord::min$|cmp::min$", c) and len(node["args"]) == 2 and any(_is_const_duration(f, a) for a in node["args"]):
+                continue
+            if re.search(r"cmp::Ord::clamp$", c) and len(node["args"]) == 3 and _is_const_duration(f, node["args"][2]):
+                continue
+            if any(re.search(p, c) for p in _DUR_CONST) and all(_is_const_duration(f, a) or not f.slice(a).params() and not f.slice(a).callees for a in node["args"]):
+                continue
+            return False
+        if kind != "assign" or node["pl"]["p"]:
+            return False
+        rv = node["rv"]
+        if rv["rv"] == "use":
+            if not _bounded_duration(f, rv["op"], depth + 1):
+                return False
+        else:
+            return False
+    return True
+
+
 def r1_accept_tolerates_errors(ctx):
     R = ctx.rule("C18.R1", "accept loops tolerate per-socket errors: HttpAcceptor::accept returns only on the Ok edge of tcp.accept().await and its Err paths loop back without return or "
                  "panic; the TLS stream yields only Ok(conn) and ends only when select! has no enabled branch; the server task leaves its accept loops only on the close signal", floor=10)
@@ -84,6 +124,13 @@ def r1_accept_tolerates_errors(ctx):
     ctx.check(R, "tcp-accept-error-loops-back", not leaves and loops_back, "when the accept produced Err: returns reachable=%d; the next tcp.accept() is reachable=%s" % (len(leaves), loops_back), esite)
     ps = [(k, w) for k, w, bucket, b in census_sites(acc) if b in only_err]
     ctx.check(R, "tcp-accept-error-path-cannot-panic", not ps, "potential panic sites run only when the accept produced Err: %s" % ps, esite)
+    # Added after adversary change C18-I (an "exponential backoff" whose clamp was written `.max(ACCEPT_RETRY_MAX)`: the pause doubles without
+    # bound, so after a descriptor-exhausting flood of T seconds the listener stays deaf for about another T): every pause on the error
+    # path is bounded by a constant -- the duration is a constant, or the last thing done to it is `min(_, constant)` / `clamp(_, c, c)`
+    sleeps = [(b, t) for b, t in acc.live_calls(r"^tokio::time::sleep$|^tokio::time::sleep_until$|^tokio::time::timeout$") if b in f_err.reach]
+    unbounded = [b for b, t in sleeps if not _bounded_duration(acc, t["args"][0])]
+    ctx.check(R, "retry-pause-is-bounded", not unbounded, "pauses on the error path of tcp.accept(): %d, of which not bounded by a constant: %d" % (len(sleeps), len(unbounded)),
+              (acc, unbounded[0]) if unbounded else esite, nontrivial=bool(sleeps))
     inloop = abb in acc.loop_blocks()
     ctx.check(R, "tcp-accept-in-retry-loop", inloop, "tcp.accept() lies on a cycle: %s" % inloop, (acc, abb))
     # ---- TLS stream
@@ -338,7 +385,16 @@ def r7_unreadable_content_type(ctx):
     c10.r9_unreadable_content_type_is_refused(Renamed(ctx, "C18.R7", "a request whose Content-Type header value is not a legal string is answered with a 4xx, never treated as if the header were absent"))
 
 
-RULES = [("C18.R7", r7_unreadable_content_type), ("C18.R6", r_frame_errors_are_errors), ("C18.R5", r5_no_client_sized_allocation), ("C18.R1", r1_accept_tolerates_errors), ("C18.R2", r2_isolation), ("C18.R3", r3_errors_become_responses), ("C18.R4", r4_panic_census)]
+def r8_undecodable_path_is_an_error(ctx):
+    """`its status is 4xx or 5xx whenever the request was malformed`: a request path whose percent-escapes do not spell UTF-8 is refused by
+    the strict decode, never repaired.  This is C03.R1, re-evaluated here (adversary change C18-J: `from_utf8_lossy` routed `/things/%ff`
+    to a handler with U+FFFD in place of the client's bytes and answered 200)."""
+    from . import c03
+    from .lib_c01 import Renamed
+    c03.r1_decode_once(Renamed(ctx, "C18.R8", "a malformed request path (escapes that are not UTF-8) becomes the 400 of the strict decode; it is never repaired and routed"))
+
+
+RULES = [("C18.R8", r8_undecodable_path_is_an_error), ("C18.R7", r7_unreadable_content_type), ("C18.R6", r_frame_errors_are_errors), ("C18.R5", r5_no_client_sized_allocation), ("C18.R1", r1_accept_tolerates_errors), ("C18.R2", r2_isolation), ("C18.R3", r3_errors_become_responses), ("C18.R4", r4_panic_census)]
 
 _S = "dropshot/src/server.rs"
 _I32 = " " * 32
